@@ -80,6 +80,10 @@ def harness_parse(system: Any, obj: Any, fmt: str, processtypes: bool) -> Dict[s
         res['gave_up'] = True
         res['why'] = 'parser raised %s' % type(e).__name__
         res['errors'] = len(errs) + 1
+        if not isinstance(e, ParseError):
+            # an internal failure: it is a problem of its own, beside the ones the parser had recorded before it failed
+            res['internal'] = type(e).__name__
+            res['before'] = len(errs)
         return res
     res['errors'] = len(errs)
     res['fields'] = len(parsed.fields)
@@ -144,11 +148,14 @@ def _check_case(case: Dict[str, Any]) -> Tuple[List[Tuple[str, str]], Dict[str, 
             import traceback
             return [('build-raises', 'building the module raised %s: %s\n%s' % (type(e).__name__, e, traceback.format_exc()[-900:]))], info
         bodies: Dict[str, str] = {}
+        h_func: Dict[str, Any] = {}
         for name in KINDS:
             a, b = sA.allobjects[name], sB.allobjects[name]
             if not a.docstring:
                 continue
             h = harness_parse(sA, a, fmt, pt)
+            if name == 'm.func':
+                h_func = h
             info['gave_up'] += int(h['gave_up'])
             info['errors'] += h['errors']
             info['fields'] += h['fields']
@@ -184,6 +191,11 @@ def _check_case(case: Dict[str, Any]) -> Tuple[List[Tuple[str, str]], Dict[str, 
                 if not reported or not printed:
                     out.append(('errors-not-reported', '%s (%s): the parser recorded %d problems but parse_errors has it: %s, messages: %s; docstring %r' % (
                         name, fmt, h['errors'], reported, printed[:2], trunc(doc, 300))))
+        # an internal failure of the parser is reported as such, in addition to what the parser had recorded before it failed
+        # (judged on the module that holds nothing but the function: every message there is about this docstring)
+        if h_func.get('internal') and first is not None and len(first[1]) < h_func['before'] + 1:
+            out.append(('internal-failure-not-reported', 'm.func (%s): the parser recorded %d problem(s) and then failed with %s, but only %d message(s) were printed: %s; docstring %r' % (
+                fmt, h_func['before'], h_func['internal'], len(first[1]), first[1][:3], trunc(doc, 200))))
         # a real run extracts the summary of an object (for the table of its parent) before it renders the body, and the search index
         # reads the docstring after both: what is shown and reported must not depend on which of them came first
         try:
